@@ -969,6 +969,99 @@ func (g *c16Gen) finalize(i int, seed uint64) *c16Scenario {
 	return sc
 }
 
+// dying: a target pending deletion, by what still holds it: (i) our finalizer, (ii) our finalizer plus a
+// garbage-collector finalizer (foreground / orphan propagation), (iii) only a foreign finalizer (ours is
+// already gone); controllers with and without a finalize hook; selected and unselected targets
+func (g *c16Gen) dying(i int, seed uint64) *c16Scenario {
+	r := g.r
+	sc := g.basic("dying", i, seed)
+	var rule *c16RuleSpec
+	for j := range sc.Ctl.Rules {
+		if sc.Ctl.Rules[j].Kind == sc.Target["kind"] {
+			rule = &sc.Ctl.Rules[j]
+		}
+	}
+	if rule.Labels == nil || len(rule.Labels.Match) == 0 {
+		rule.Labels = &c16Sel{Match: map[string]string{"managed": "yes"}}
+	}
+	lm := c16Meta(sc.Target, "labels")
+	c16Satisfy(lm, rule.Labels)
+	am := c16Meta(sc.Target, "annotations")
+	c16Satisfy(am, rule.Annotations)
+	md := sc.Target["metadata"].(map[string]interface{})
+	md["labels"], md["annotations"] = lm, am
+	delete(md, "finalizers")
+	sc.Ctl.Finalize = r.Chance(3, 4)
+	sc.Ctl.NoSync = false
+	if sc.Ctl.Finalize {
+		c16AddFeature(sc, "with-finalize-hook")
+	} else {
+		c16AddFeature(sc, "without-finalize-hook")
+	}
+	// the hooks: the sync answer must not take the selector label away; the finalize answer changes the
+	// target (labels, sometimes the status) so that a write is attempted while the target is dying
+	h := c16HookProgram{Kind: "const", Labels: map[string]*string{"deco-final": c16Str(fmt.Sprintf("v%d", r.Intn(3)))}}
+	if r.Bool() {
+		h.Annotations = map[string]*string{"deco-final-note": c16Str("n")}
+	}
+	if r.Chance(1, 3) {
+		h.StatusMode, h.Status = "const", c16J{"phase": "Finalizing"}
+	}
+	for j := 0; j < r.Intn(3); j++ {
+		a := sc.Ctl.Attachments[r.Intn(len(sc.Ctl.Attachments))]
+		h.Attachments = append(h.Attachments, g.attachment(a, *rule, fmt.Sprintf("a%d", j), 1))
+	}
+	h.FinalizedIfEmpty = r.Chance(2, 3)
+	h.FinalizedAlways = r.Chance(1, 4)
+	if len(h.Attachments) > 0 && r.Bool() {
+		h.FinalizeAttachments = h.Attachments[:len(h.Attachments)/2]
+	}
+	sc.Hook, sc.Hook2 = h, nil
+	sc.Warmup = r.Intn(2)
+	if sc.Warmup > 0 {
+		// after the warm-up the answers name a new label value, so the dying target is still written to
+		h2 := h
+		h2.Labels = map[string]*string{"deco-final": c16Str("finalizing")}
+		sc.Hook2 = &h2
+	}
+	ours := "metacontroller.io/decoratorcontroller-" + sc.Ctl.Name
+	var fins c16A
+	switch r.Intn(5) {
+	case 0:
+		fins = c16A{ours}
+		c16AddFeature(sc, "dying-ours")
+	case 1:
+		fins = c16A{ours, []string{"foregroundDeletion", "orphan"}[r.Intn(2)]}
+		c16AddFeature(sc, "dying-ours-gc")
+	case 2:
+		fins = c16A{"example.com/hold", ours}
+		c16AddFeature(sc, "dying-ours")
+	default:
+		fins = c16A{"example.com/hold"}
+		c16AddFeature(sc, "dying-foreign-only")
+	}
+	ref := c16TargetRef(sc.Target)
+	set := ref
+	set.Op, set.Data = "meta", c16J{"finalizers": fins}
+	if r.Chance(1, 4) {
+		set.Data["labels"] = c16J{"managed": "no"}
+		c16AddFeature(sc, "dying-unselected")
+	} else {
+		c16AddFeature(sc, "dying-selected")
+	}
+	sc.Setup = append(sc.Setup, set)
+	del := ref
+	del.Op = "deleting"
+	rs := c16RoundSpec{PreOps: []c16ExtOp{del}}
+	if r.Chance(1, 5) {
+		// one live round first
+		sc.Rounds = []c16RoundSpec{{}, rs, {}}
+	} else {
+		sc.Rounds = []c16RoundSpec{rs, {}, {}}
+	}
+	return sc
+}
+
 var c16RawBodies = []string{
 	`null`, `[]`, `"text"`, `not json`, `{}`,
 	`{"labels":{"a":1}}`, `{"labels":["a"]}`, `{"labels":{"a":true}}`, `{"labels":"x"}`,
@@ -1217,6 +1310,11 @@ func c16GenerateScenarios(prop string, seed uint64, n int, adv bool) []*c16Scena
 	if prop == "C06d" {
 		strategySlots = map[int]bool{0: true, 1: true, 2: true, 3: true, 4: true, 5: true, 7: true, 10: true}
 	}
+	// the C10 / C17 legs look at the end of a target's life: weight the dying-target family
+	dyingSlots := map[int]bool{8: true}
+	if prop == "C10d" || prop == "C17d" {
+		dyingSlots = map[int]bool{0: true, 1: true, 3: true, 5: true, 7: true, 8: true, 10: true}
+	}
 	for i := 0; len(out) < n || i == 0; i++ {
 		sub, s := root.Fork()
 		g := &c16Gen{r: sub, adv: adv}
@@ -1227,10 +1325,14 @@ func c16GenerateScenarios(prop string, seed uint64, n int, adv bool) []*c16Scena
 		}
 		if !adv && strategySlots[pick] {
 			pick = 100
+		} else if !adv && dyingSlots[pick] {
+			pick = 101
 		}
 		switch pick {
 		case 100:
 			sc = g.strategy(i, s)
+		case 101:
+			sc = g.dying(i, s)
 		case 0, 1, 2:
 			sc = g.basic("basic", i, s)
 		case 3, 4:
